@@ -81,7 +81,10 @@ def draw_params(rng, focus=None, worker_kind="lxc", odd_scopes=False):
     params = {"shared_pool": "/mnt/local/images/shared"}
     # scope sets that are consistent with the kind of workers: lxc workers reach each other through "swarm",
     # remote ones through "swarm" (same cluster) and "cluster"
-    if worker_kind in ("remote", "mixed"):
+    if worker_kind == "mixed":
+        # lxc and remote workers in one run only agree on who shares setup under the complete scope
+        scope = rng.choice([None, None, "shared cluster swarm own"])
+    elif worker_kind == "remote":
         scope = rng.choice([None, None, "own swarm shared", "shared cluster swarm own"])
     else:
         scope = rng.choice([None, None, None, "own shared", "own", "own swarm shared", "swarm cluster shared own"])
@@ -92,7 +95,7 @@ def draw_params(rng, focus=None, worker_kind="lxc", odd_scopes=False):
     if rng.random() < (0.6 if focus in ("retry", "C03", "C04", "C10") else 0.25):
         params["max_tries"] = str(rng.choice([1, 2, 2, 3, 4]))
         if rng.random() < 0.4:
-            params["max_concurrent_tries"] = str(rng.choice([1, 1, 2, 3]))
+            params["max_concurrent_tries"] = str(min(int(params["max_tries"]), rng.choice([1, 1, 2, 3])))
         if rng.random() < 0.5:
             params["rerun_status"] = " ".join(rng.sample(["fail", "error", "warn", "pass", "skip"], rng.randint(1, 3)))
         if rng.random() < 0.3:
